@@ -67,6 +67,10 @@ package p2pke
 //@   requires inv(s)
 //@   modifies all(out)
 //@   ensures s.hsIndex >= 4 ==> ret == nil
+//@   ensures [current0] s.isInit && s.hsIndex == 0 ==> len(ret) == len(out) + len(s.msgCache[0])
+//@   ensures [current1] !s.isInit && s.hsIndex == 1 ==> len(ret) == len(out) + len(s.msgCache[1])
+//@   ensures [current2] s.isInit && s.hsIndex == 2 ==> len(ret) == len(out) + len(s.msgCache[2])
+//@   ensures [current3] !s.isInit && s.hsIndex == 3 ==> len(ret) == len(out) + len(s.msgCache[3])
 //@
 //@ func (*Session).Send
 //@   assumeframe
